@@ -83,8 +83,10 @@ struct CountMeta : public mpt::metatype
 	}
 	void unref() override { if (released) { ++bad; return; } if (--refs == 0) released = 1; }
 	uintptr_t addref() override { if (released) { ++bad; return 0; } return ++refs; }
-	mpt::metatype *clone() const override { return make(val, true); }
+	mpt::metatype *clone() const override;
 };
+static const CountMeta *g_refuse = 0;   // the value that currently refuses to be cloned (failed-clone ops)
+mpt::metatype *CountMeta::clone() const { return this == g_refuse ? 0 : make(val, true); }
 static CountMeta *as_count(mpt::metatype *m)
 {
 	for (CountMeta *c : g_metas) if (c == m) return c;
@@ -180,8 +182,9 @@ static void build_ops()
 		for (int k : { CREATE, UNLINK, NCLONE, LCLONE, TCLONE, CLEAR, DESTROY, RELINK, RESTORE }) g_ops.push_back(OpD{k, a, -1, 0});
 		g_ops.push_back(OpD{RESTORE, a, -1, 1});
 		if (g_cxx) { for (int k : { DTOR, SETMETA, ASSIGN }) g_ops.push_back(OpD{k, a, -1, 0}); g_ops.push_back(OpD{SCOPE, a, -1, 0}); g_ops.push_back(OpD{SCOPE, a, -1, 1}); g_ops.push_back(OpD{COPY, a, -1, 0}); g_ops.push_back(OpD{COPY, a, -1, 1}); }
+		g_ops.push_back(OpD{NCLONE, a, a, 0});   // clone while the value of b refuses to be cloned (b anywhere in the cloned region)
 		for (int b = 0; b < g_N; ++b) {
-			for (int k : { AFTER, BEFORE, SWAP, SWITCH }) g_ops.push_back(OpD{k, a, b, 0});
+			for (int k : { AFTER, BEFORE, SWAP, SWITCH, LCLONE, TCLONE }) g_ops.push_back(OpD{k, a, b, 0});
 			if (a == b) continue;
 			g_ops.push_back(OpD{MOVE, a, b, 0});   // source passed the natural way: &parent->children, or a local head for roots
 			g_ops.push_back(OpD{MOVE, a, b, 1});   // child list passed through a separate local head variable
@@ -199,6 +202,7 @@ static std::string op_str(const OpD &d)
 	case SWAP: case SWITCH: return fmt("%s(%s, %s)", kname[d.k], nn(d.a).c_str(), nn(d.b).c_str());
 	case RESTORE: return fmt("back links below %s %s, then mpt_gnode_relink(%s)", nn(d.a).c_str(), d.pos ? "left stale (pointing at wrong nodes)" : "zeroed", nn(d.a).c_str());
 	case COPY: return d.pos ? fmt("{ mpt::node b; b = *%s; }", nn(d.a).c_str()) : fmt("{ mpt::node b(*%s); }", nn(d.a).c_str());
+	case NCLONE: case LCLONE: case TCLONE: if (d.b < 0) return fmt("%s(%s)", kname[d.k], nn(d.a).c_str()); return fmt("%s(%s) while the value of %s refuses clone()", kname[d.k], nn(d.a).c_str(), nn(d.b).c_str());
 	case DTOR: return fmt("%s->~node(); free()", nn(d.a).c_str());
 	case SCOPE: return fmt("%s made the child of a %s mpt::node which is then destroyed", nn(d.a).c_str(), d.pos ? "new'ed" : "stack");
 	default: return fmt("%s(%s)", kname[d.k], nn(d.a).c_str());
@@ -526,6 +530,12 @@ struct HSys {
 				break; }
 			case SWAP: case SWITCH: if (a != b && (F.anc(a, b) || F.anc(b, a))) return false; break;
 			case RESTORE: if (F.kids[a].empty()) return false; break;
+			case TCLONE: if (b >= 0 && !F.anc(a, b)) return false; break;
+			case LCLONE: if (b >= 0) {
+				// b must lie in the cloned region: below (or equal to) a or one of its successors
+				int t = b; while (F.par[t] != F.par[a] && F.par[t] >= 0) t = F.par[t];
+				if (F.par[t] != F.par[a] || &F.list_of(t) != &F.list_of(a) || F.index_of(t) < F.index_of(a)) return false;
+				} break;
 			case DTOR: case SETMETA: case ASSIGN: if (!g_cxx) return false; break;
 			case SCOPE: if (!g_cxx || !F.single(a)) return false; break;
 			case COPY: if (!g_cxx || !g_copyable[d.pos]) return false; break;
@@ -631,6 +641,21 @@ struct HSys {
 				if (depth >= 2) cnt(std::string(d.k == TCLONE ? "tree_clone" : "list_clone") + ":depth>=2 below the cloned level");
 			}
 			mpt::node *cpy = 0;
+			if (b >= 0) {
+				// failed clone: the value of b refuses; nothing may be returned, nothing may stay behind (accounting below)
+				int rd = 0; if (d.k != NCLONE) for (int t = b; t != a && F.par[t] >= 0 && !(d.k == LCLONE && F.par[t] == F.par[a]); t = F.par[t]) ++rd;
+				bool later = d.k == LCLONE && rd == 0 && b != a;
+				if (d.k == LCLONE && rd > 0) { int t = b; while (F.par[t] != F.par[a]) t = F.par[t]; later = t != a; }
+				sig_cls += fmt(",value-refused-at-depth%s%s", rd == 0 ? "0" : (rd == 1 ? "1" : ">=2"), later ? ",after-copied-siblings" : "");
+				cnt(fmt("%s:value refused at depth%s", d.k == NCLONE ? "node_clone" : (d.k == TCLONE ? "tree_clone" : "list_clone"), rd == 0 ? "0" : (rd == 1 ? "1" : ">=2")));
+				g_refuse = meta[b];
+				sig = guarded([&] { cpy = d.k == NCLONE ? LIB(mpt::mpt_node_clone(pa)) : (d.k == LCLONE ? LIB(mpt::mpt_list_clone(pa)) : LIB(mpt::mpt_tree_clone(pa))); });
+				g_refuse = 0;
+				if (sig) break;
+				if (asan_error()) return fail("asan", "failed clone touches memory outside live nodes");
+				if (cpy) return fail("values", "a clone was returned although the value of " + nn(b) + " could not be cloned");
+				break;
+			}
 			sig = guarded([&] { cpy = d.k == NCLONE ? LIB(mpt::mpt_node_clone(pa)) : (d.k == LCLONE ? LIB(mpt::mpt_list_clone(pa)) : LIB(mpt::mpt_tree_clone(pa))); });
 			if (sig) break;
 			if (asan_error()) return fail("asan", "cloning touches memory outside live nodes");
